@@ -10,11 +10,18 @@ lookup of the code computes.  The theorems hold for EVERY interpretation `ap` of
 satisfying the invariant (`Init`; `init progs` is one), EVERY number of threads with ANY programs mixing mutators,
 readers and flushes, and EVERY schedule.
 
-  L1  `C05_pools_view_invariant`, `C05_pools_section_effect`
+  L1  `C05_pools_view_invariant`, `C05_pools_section_effect`, `C05_pools_register`
+  L2  `C05_pools_read_your_writes`
+  L3  `C05_pools_refines_conc_section`, `C05_pools_refines_conc_read`, `C05_pools_refines_conc_run` : the layer
+      implements the atomic `lookup` / `setIdx` / `delIdx` of Sth/Model/Conc.lean
   L4  `C05_pools_lockAfterSwap_*`, `C05_pools_skipPools_stale` : the two seeded defects that lived here
       (C05-r3 flushLock after the swap, C05-r2 reader skipping the pools), evaluated on the model by `decide`.
+  L5  `C05_pools_primary_*` : the pools of the multihash primary (PART 2 of the model).  NOT the same shape: no
+      table and no publish section — the location IS the file position, so the invariant is a layout invariant
+      (file ++ unwritten curPool ++ nextPool = all records in allocation order) and the registers are write-once.
 -/
-import Sth.Lemmas.C05PoolsLin
+import Sth.Lemmas.C05PoolsRef
+import Sth.Lemmas.C05PoolsPri
 
 namespace Sth
 open ConcPools
@@ -182,5 +189,214 @@ example :
     view (run Upd.ap exP schedP) 1 = some [1, 3, 2] ∧ view (run Upd.ap exP schedP) 2 = some [] ∧
     view (run Upd.ap exP schedP) 3 = none := by
   refine ⟨by decide +kernel, by decide +kernel, by decide +kernel, by decide +kernel, by decide +kernel⟩
+
+/-! ### L1/L2: the abstract register, read your writes -/
+
+/-- L1, register form.  Along every schedule the view of bucket `b` is the fold of all mutators applied to `b`
+    (`updsOn`: the codes of the mutator sections on `b`, in the order of the schedule) over the initial view —
+    however many flushes run in between and wherever they stand. -/
+theorem C05_pools_register (ap : U → Option V → Option V) (s0 : State U V) (h0 : Init s0) (sched : List Nat)
+    (b : Bucket) :
+    view (run ap s0 sched) b = (updsOn ap b s0 sched).foldl (fun r u => applyU ap u r) (view s0 b) :=
+  view_run h0.inv sched b
+
+/-- L2.  After schedule `a` thread `i` runs a mutator section on bucket `bk` that stores `v`; then ANY schedule `b`
+    (any number of flushes, other mutators, readers); then thread `j`, idle, starts a read of `bk`; then ANY
+    continuation `c`.  Right after the mutator the view is `v`; when the read starts the view is `v` with the later
+    mutators of `bk` applied in order ("that value or a later one"); and thread `j` is waiting to return exactly that
+    view or has returned it. -/
+theorem C05_pools_read_your_writes (ap : U → Option V → Option V) (s0 : State U V) (h0 : Init s0)
+    (a b c : List Nat) (i j : Nat) (bk : Bucket) (u : U) (v : V) (rest : List (Op U)) (rest' : List (Op U))
+    (ti : Thread U V) (hti : (run ap s0 a).threads[i]? = some ti) (hpc : ti.pc = .idle)
+    (hp : ti.prog = .upd bk u :: rest) (hap : ap u (view (run ap s0 a) bk) = some v)
+    (tj : Thread U V) (htj : (run ap s0 (a ++ i :: b)).threads[j]? = some tj) (hidle : tj.pc = .idle)
+    (hprog : tj.prog = .read bk :: rest') :
+    view (run ap s0 (a ++ [i])) bk = some v ∧
+    view (run ap s0 (a ++ i :: b)) bk =
+      (updsOn ap bk (run ap s0 (a ++ [i])) b).foldl (fun r u => applyU ap u r) (some v) ∧
+    ∃ t, (run ap s0 (a ++ i :: b ++ j :: c)).threads[j]? = some t ∧
+      ((∃ b' inf, t.pc = .readInfo b' inf ∧ t.out = tj.out ∧
+          infoVal (run ap s0 (a ++ i :: b ++ j :: c)).file inf = view (run ap s0 (a ++ i :: b)) bk) ∨
+       (∃ more, t.out = tj.out ++ .got (view (run ap s0 (a ++ i :: b)) bk) :: more)) := by
+  have hI1 := inv_run (ap := ap) h0.inv a
+  have h1 : view (run ap s0 (a ++ [i])) bk = some v := by
+    rw [run_append, run_cons, run_nil, view_stepD hI1 i bk, hti]
+    simp [updOf, hpc, hp, applyU, hap]
+  have hI2 := inv_run (ap := ap) h0.inv (a ++ [i])
+  have hsplit : run ap s0 (a ++ i :: b) = run ap (run ap s0 (a ++ [i])) b := by
+    rw [← run_append]; simp
+  refine ⟨h1, ?_, ?_⟩
+  · rw [hsplit, view_run hI2 b bk, h1]
+  · have hI3 := inv_run (ap := ap) h0.inv (a ++ i :: b)
+    have hsee := readSees_info (ap := ap) hI3 htj hidle hprog
+    have hrun : run ap s0 (a ++ i :: b ++ j :: c) = run ap (stepD ap (run ap s0 (a ++ i :: b)) j) c := by
+      rw [show a ++ i :: b ++ j :: c = (a ++ i :: b) ++ j :: c by simp, run_append, run_cons]
+    obtain ⟨t, ht, hc⟩ := readSees_run (inv_stepD hI3 j) hsee c
+    rw [← hrun] at ht hc
+    refine ⟨t, ht, ?_⟩
+    rcases hc with ⟨b', inf, h2, h3, h4, _⟩ | hm
+    · exact Or.inl ⟨b', inf, h2, h3, h4⟩
+    · exact Or.inr hm
+
+/-! ### L3: refinement to the atomic index of Sth/Model/Conc.lean -/
+
+/-- L3, one section.  Instance: a bucket's value is the part of Conc's exact-key index in the bucket, the mutators are
+    Conc's index sections (`IdxOp.put` / `update` / `remove`; `IdxOp.conc` = the expressions of `Conc.step` on Conc's
+    `idx`), `bk` is any bucket function, `Rel bk s idx` = Conc's `lookup idx k` is `Conc.lookup (view s (bk k)) k` for
+    every key.  In every reachable state related to `idx`: a mutator section on the bucket of its key is EXACTLY one
+    Conc index section (the new state is related to `u.conc idx`, and the record list it found answers Conc's
+    presence test); every other section — reader, swap, append, publish, release — is a stutter. -/
+theorem C05_pools_refines_conc_section (bk : Conc.Key → Bucket) (s0 : State IdxOp IV) (h0 : Init s0)
+    (sched : List Nat) (i : Nat) (t : Thread IdxOp IV) (s' : State IdxOp IV) (idx : List (Conc.Key × Nat))
+    (ht : (run IdxOp.ap s0 sched).threads[i]? = some t) (hstep : step IdxOp.ap (run IdxOp.ap s0 sched) i = some s')
+    (hr : Rel bk (run IdxOp.ap s0 sched) idx) :
+    match t.pc, t.prog with
+    | .idle, .upd b u :: _ =>
+      b = bk u.key → Rel bk s' (u.conc idx) ∧
+        (Conc.lookup idx u.key).isSome =
+          (Conc.lookup ((view (run IdxOp.ap s0 sched) b).getD []) u.key).isSome
+    | _, _ => Rel bk s' idx := by
+  have hI := inv_run (ap := IdxOp.ap) h0.inv sched
+  obtain ⟨t1, ht1, hsec⟩ := step_secC hI.fl1 hI.fl2 hstep
+  rw [ht] at ht1; cases ht1
+  exact refine_sec bk hI ht hsec hr
+
+/-- L3, reads: an Index.Get of `k` whose info section runs in a state related to `idx` returns (whenever it
+    completes — L1 (c)) a record list in which `k` looks up exactly as in Conc's `lookup idx k` at that moment. -/
+theorem C05_pools_refines_conc_read (bk : Conc.Key → Bucket) (s : State IdxOp IV) (idx : List (Conc.Key × Nat))
+    (hr : Rel bk s idx) (k : Conc.Key) :
+    Conc.lookup ((infoVal s.file (infoOf s (bk k))).getD []) k = Conc.lookup idx k := refine_read bk hr k
+
+/-- L3, whole run: along every schedule the pools state is related to Conc's index after the same index sections in
+    the same order (`updsAll`) -/
+theorem C05_pools_refines_conc_run (bk : Conc.Key → Bucket) (s0 : State IdxOp IV) (h0 : Init s0)
+    (hw : WellBucketed bk s0) (idx0 : List (Conc.Key × Nat)) (hr : Rel bk s0 idx0) (sched : List Nat) :
+    Rel bk (run IdxOp.ap s0 sched) ((updsAll IdxOp.ap s0 sched).foldl (fun idx u => u.conc idx) idx0) :=
+  refine_run bk h0.inv hw hr sched
+
+/-- the empty pools state is related to the empty Conc index -/
+example (bk : Conc.Key → Bucket) (progs : List (List (Op IdxOp))) : Rel bk (init progs) [] := by
+  intro k; rfl
+
+/-- non-vacuity of L3: two index writers on keys sharing bucket 7 (Put, Update) and bucket 8 (Put, Remove), two
+    flushes, a reader; the bucket of a key is its first byte -/
+def ConcPools.exI : State IdxOp IV :=
+  init [[.upd 7 (.put [7, 1] 0), .upd 7 (.update [7, 1] 3), .upd 8 (.remove [8, 1]), .upd 7 (.update [7, 9] 5)],
+        [.upd 7 (.put [7, 2] 1), .upd 8 (.put [8, 1] 2), .upd 7 (.put [7, 2] 4)],
+        [.flush, .flush], [.read 7, .read 8]]
+
+def ConcPools.bkI (k : Conc.Key) : Bucket := k.headD 0
+
+def ConcPools.schedI : List Nat := [0, 1, 2, 1, 2, 3, 0, 2, 2, 3, 0, 2, 1, 2, 2, 3, 2, 0, 3, 2]
+
+example : Init exI := init_Init _
+example : WellBucketed bkI exI := wellBucketed_of_B _ _ (by decide)
+
+/-- every schedule of `exI` refines Conc's index … -/
+example (sched : List Nat) :
+    Rel bkI (run IdxOp.ap exI sched) ((updsAll IdxOp.ap exI sched).foldl (fun idx u => u.conc idx) []) :=
+  C05_pools_refines_conc_run bkI exI (init_Init _) (wellBucketed_of_B _ _ (by decide)) [] (fun _ => rfl) sched
+
+/-- … and on one of them: the index sections in schedule order, Conc's index after them, and the pools state's
+    answers (through nextPool, curPool and the file: two flushes completed) -/
+example :
+    updsAll IdxOp.ap exI schedI =
+      [.put [7, 1] 0, .put [7, 2] 1, .put [8, 1] 2, .update [7, 1] 3, .remove [8, 1], .put [7, 2] 4,
+       .update [7, 9] 5] ∧
+    (updsAll IdxOp.ap exI schedI).foldl (fun idx u => u.conc idx) [] = [([7, 1], 3), ([7, 2], 1)] ∧
+    absLookup bkI (run IdxOp.ap exI schedI) [7, 1] = some 3 ∧
+    absLookup bkI (run IdxOp.ap exI schedI) [7, 2] = some 1 ∧
+    absLookup bkI (run IdxOp.ap exI schedI) [8, 1] = none ∧
+    absLookup bkI (run IdxOp.ap exI schedI) [7, 9] = none ∧
+    (run IdxOp.ap exI schedI).file.length = 3 := by
+  refine ⟨by decide +kernel, by decide +kernel, by decide +kernel, by decide +kernel, by decide +kernel,
+    by decide +kernel, by decide +kernel⟩
+
+/-! ### L5: the pools of the multihash primary -/
+
+variable {R : Type}
+
+/-- L5, step form.  In every reachable state of the correct protocol a Put section gives the fresh location `recPos`
+    (the location it returns) its record and changes no other view; every other section — Get's two sections and
+    the three sections of a flush: swap, append in allocation order, release — changes no view. -/
+theorem C05_pools_primary_section_effect (s0 : Pri.State R) (h0 : Pri.Init s0) (sched : List Nat) (i : Nat)
+    (t : Pri.Thread R) (s' : Pri.State R) (ht : (Pri.run s0 sched).threads[i]? = some t)
+    (hstep : Pri.step (Pri.run s0 sched) i = some s') (l : Nat) :
+    Pri.view s' l =
+      match t.pc, t.prog with
+      | .idle, .put r :: _ => if l = (Pri.run s0 sched).recPos then some r else Pri.view (Pri.run s0 sched) l
+      | _, _ => Pri.view (Pri.run s0 sched) l := by
+  have hI := Pri.pinv_run h0.inv sched
+  obtain ⟨t1, ht1, hsec⟩ := Pri.step_secC hI.fl1 hI.fl2 hstep
+  rw [ht] at ht1; cases ht1
+  exact Pri.view_sec hI ht hsec l
+
+/-- L5: a location is visible exactly when Put has handed it out; and it keeps its record for ever (write-once),
+    across any number of flushes -/
+theorem C05_pools_primary_write_once (s0 : Pri.State R) (h0 : Pri.Init s0) (a b : List Nat) (l : Nat) :
+    ((Pri.view (Pri.run s0 a) l).isSome ↔ l < (Pri.run s0 a).recPos) ∧
+    (l < (Pri.run s0 a).recPos → Pri.view (Pri.run s0 (a ++ b)) l = Pri.view (Pri.run s0 a) l) := by
+  have hI := Pri.pinv_run h0.inv a
+  refine ⟨Pri.view_isSome_iff hI l, fun hl => ?_⟩
+  rw [Pri.run_append]; exact Pri.view_stable hI b hl
+
+/-- L5: a Get of a location that has been handed out (its Put returned) finds the record: after its first section
+    and ANY continuation `c`, the thread still waits at the file read with the record on file at that location,
+    or has returned `got (the record)` — never EOF, never ErrOutOfBounds, never another record. -/
+theorem C05_pools_primary_get (s0 : Pri.State R) (h0 : Pri.Init s0) (a c : List Nat) (j : Nat) (l : Nat)
+    (rest : List (Pri.Op R)) (tj : Pri.Thread R) (htj : (Pri.run s0 a).threads[j]? = some tj)
+    (hidle : tj.pc = .idle) (hprog : tj.prog = .get l :: rest) (hl : l < (Pri.run s0 a).recPos) :
+    ∃ r, Pri.view (Pri.run s0 a) l = some r ∧
+      ∃ t, (Pri.run s0 (a ++ j :: c)).threads[j]? = some t ∧
+        ((t.pc = .getChecked l ∧ t.out = tj.out ∧ (Pri.run s0 (a ++ j :: c)).file[l]? = some r) ∨
+         (∃ more, t.out = tj.out ++ .got (some r) :: more)) := by
+  have hI := Pri.pinv_run h0.inv a
+  obtain ⟨hsome, hsee⟩ := Pri.get_first hI htj hidle hprog hl
+  obtain ⟨r, hr⟩ := Option.isSome_iff_exists.1 hsome
+  refine ⟨r, hr, ?_⟩
+  obtain ⟨t, ht, hc⟩ := Pri.getSees_run (Pri.pinv_stepD hI j) hsee c
+  have hrun : Pri.run s0 (a ++ j :: c) = Pri.run (Pri.stepD (Pri.run s0 a) j) c := by
+    rw [Pri.run_append, Pri.run_cons]
+  rw [← hrun] at ht hc
+  refine ⟨t, ht, ?_⟩
+  rw [hr] at hc
+  rcases hc with ⟨h1, h2, h3, _⟩ | hm
+  · exact Or.inl ⟨h1, h2, h3⟩
+  · exact Or.inr hm
+
+/-- one writer, one flusher, a reader of location 0 (twice) -/
+def ConcPools.pD (skipPools : Bool) : Pri.State Nat :=
+  { skipPools := skipPools, threads := [{ prog := [.put 100] }, { prog := [.flush] }, { prog := [.get 0, .get 0] }] }
+
+/-- L4 (ii) where it was seeded (C05-r2, getCached skipping the pools when nothing is outstanding): between the swap
+    and the append of a single flush the record exists only in curPool; the Get goes to the file and reads nothing
+    (EOF) although the Put returned; the correct getCached returns the record both times. -/
+theorem C05_pools_primary_skipPools_eof :
+    (Pri.run (pD true) [0, 1, 2, 2, 1, 1, 2, 2]).threads.map (·.out) =
+      [[.loc 0], [.flushed], [.got none, .got (some 100)]] ∧
+    (Pri.run (pD false) [0, 1, 2, 2, 1, 1, 2, 2]).threads.map (·.out) =
+      [[.loc 0], [.flushed], [.got (some 100), .got (some 100)]] := by
+  refine ⟨by decide, by decide⟩
+
+/-- one writer (two records), two flushers, a reader of both locations -/
+def ConcPools.pA (lockAfterSwap : Bool) : Pri.State Nat :=
+  { lockAfterSwap := lockAfterSwap,
+    threads := [{ prog := [.put 100, .put 101] }, { prog := [.flush] }, { prog := [.flush] },
+                { prog := [.get 0, .get 1] }] }
+
+/-- L5, why the flushLock discipline matters even more in the primary (the seeded change C05-r3 transplanted): with
+    flushLock taken after the swap the first pool is never written and the second is written twice, so the file no
+    longer holds location `l` at position `l`: Get(0) returns the record of location 1.  Correct locking: both
+    records, at their locations. -/
+theorem C05_pools_primary_lockAfterSwap_wrong_record :
+    (Pri.run (pA true) [0, 1, 0, 2, 1, 1, 2, 2, 3, 3, 3, 3]).file = [101, 101] ∧
+    ((Pri.run (pA true) [0, 1, 0, 2, 1, 1, 2, 2, 3, 3, 3, 3]).threads.map (·.out))[3]? =
+      some [.got (some 101), .got (some 101)] ∧
+    (Pri.run (pA false) [0, 1, 0, 2, 1, 1, 2, 2, 2, 3, 3, 3, 3]).file = [100, 101] ∧
+    ((Pri.run (pA false) [0, 1, 0, 2, 1, 1, 2, 2, 2, 3, 3, 3, 3]).threads.map (·.out))[3]? =
+      some [.got (some 100), .got (some 101)] := by
+  refine ⟨by decide, by decide, by decide, by decide⟩
+
+example (progs : List (List (Pri.Op Nat))) : Pri.Init (Pri.init progs) := Pri.init_Init progs
 
 end Sth
